@@ -209,7 +209,7 @@ def run_check(pid, tier, replay=None):
         print(f"VIOLATION-SUMMARY property={pid} {hk} count={cnt}")
     if shown > 25:
         print(f"... {shown - 25} more violations (replay files under work/replays/{pid}/)")
-    if not replay:
+    if not replay and not os.environ.get("VERIF_NO_EVIDENCE"):
         coverage = {
             "states": max(states, 0), "transitions": max(transitions, 0),
             "traces_validated_against_impl": traces,
